@@ -218,14 +218,22 @@ def _sweep_worker(bounds):
                 except Exception:
                     h = 'raised'
                     code = 7
-                dig = dig * 512 + code * 64 + check_mask(m, 1)
+                mask = check_mask(m, 1)
+                dig = dig * 512 + code * 64 + mask
                 if sym == 'C' and c == 0 and not r and h != stored:
                     pipeline_bad.append((idx, stored, h))
                 o8 = octet(sym, c, r, env)
+                st = (sym, c, r)
                 if h == 'raised' or (o8 is not None and h is not None and h != o8) or \
-                        (o8 is not None and h is None and (sym, c, r) in OCTET_SUPPORTED) or \
-                        (o8 is None and h is not None and (sym, c, r) not in HYPERVALENT):
-                    octet_bad.append((idx, sym, c, r, h, o8))
+                        (o8 is not None and h is None and st in OCTET_SUPPORTED) or \
+                        (o8 is None and h is not None and st not in HYPERVALENT):
+                    octet_bad.append((idx, sym, c, r, h, o8, 'calc_implicit'))
+                elif st not in HYPERVALENT:
+                    # check_implicit accepts nothing but the octet count (and 0 on a bare atom: elemental state), and accepts
+                    # the octet count in every supported state
+                    allowed = ((1 << o8) if o8 is not None and o8 <= 5 else 0) | (1 if not env else 0)
+                    if (mask & ~allowed) or (st in OCTET_SUPPORTED and o8 is not None and o8 <= 5 and not (mask >> o8) & 1):
+                        octet_bad.append((idx, sym, c, r, [hh for hh in range(7) if (mask >> hh) & 1], o8, 'check_implicit'))
             row.append(dig)
         out.append(row)
     return lo, out, pipeline_bad, octet_bad
@@ -309,10 +317,10 @@ def corr_exhaustive(ck):
         ck.unchecked('correspondence Valence.calc_env/check_env vs MoleculeContainer.calc_implicit/check_implicit (exhaustive space)',
                      '\n'.join(details[:10]), details[:20])
     # independent oracle on the same real results (search layer)
-    for idx, sym, c, r, h, o8 in octet_bad[:50]:
+    for idx, sym, c, r, h, o8, fn in octet_bad[:12]:
         env = ENVS[idx]
-        ck.counterexample(f'octet:{sym}:{c}:{int(r)}:{"".join(f"{o}-{z}." for o, z in env)}',
-                          'implicit hydrogen count of an organic atom differs from the octet rule outside the listed deliberate differences',
+        ck.counterexample(f'octet:{fn}:{sym}:{c}:{int(r)}:{"".join(f"{o}-{z}." for o, z in env)}',
+                          f'{fn}: hydrogen count(s) of an organic atom differ from the octet rule outside the listed deliberate differences',
                           env_smiles(sym, c, r, env), h, o8, 'octet rule (independent of the tables) + lists of supported / hypervalent states',
                           replay_py=replay_env(sym, c, r, env))
     ck.extra['octet_oracle_cases'] = n_cases
@@ -329,7 +337,7 @@ def replay_env(sym, c, r, env):
 # ---------------------------------------------------------------------------------------------------------------
 # (b2) whole molecules
 
-def observe(m, extra_ids=(), labels=True, totals=True, recalc=True):
+def observe(m, extra_ids=(), labels=True, totals=True, recalc=True, stored=False):
     """all observations of one real molecule as a Coq boolean expression over its printed form (the molecule itself
     is not modified: every mutating call works on a copy)"""
     parts = []
@@ -369,6 +377,8 @@ def observe(m, extra_ids=(), labels=True, totals=True, recalc=True):
             parts.append(f'recalc_case g {lst([a.implicit_hydrogens for _, a in f.atoms()], lambda h: opt(h, zraw))}')
         except Exception:
             pass
+    if stored:
+        parts.append('stored_ok g')
     return f'(let g := {coqmol.mol_term(m)} in ' + ' && '.join(parts) + ')'
 
 
@@ -380,6 +390,11 @@ def build(centre, env, extra=()):
     for o, e in list(env) + list(extra):
         n = m.add_atom(e)
         m.add_bond(1, n, o)
+    if any(o == 8 for o, _ in list(env) + list(extra)):
+        # add_bond(.., 8) returns before fix_structure and leaves Bond._in_ring unset, so that copy() raises AttributeError
+        # (a defect of the edit machinery, property C13, not of the hydrogen model): refresh the labels explicitly
+        m.flush_cache()
+        m.calc_labels()
     return m
 
 
@@ -507,9 +522,9 @@ def corr_molecules(ck):
         add(tag, m, **kw)
     for tag, m in gen_rule_directed(ck, rng):
         add(tag, m)
-    for tag, m in gen_random(ck, rng, 1200 if ck.tier == 'quick' else 12000):
+    for tag, m in gen_random(ck, rng, 800 if ck.tier == 'quick' else 6000):
         add(tag, m)
-    pool = corpus.sample(corpus.lipo(), 200 if ck.tier == 'quick' else 4200, ck.seed, 'c04corr')
+    pool = corpus.sample(corpus.lipo(), 200 if ck.tier == 'quick' else 1500, ck.seed, 'c04corr')
     for smi in pool:
         try:
             m = smiles(smi)
@@ -521,7 +536,7 @@ def corr_molecules(ck):
             k.kekule()
         except Exception:
             continue
-        add(('corpus-kekule', smi), k)
+        add(('corpus-kekule', smi), k, stored=not any(int(bd) == 4 for *_, bd in k.bonds()))
     ok, failing, log = coqcases.run_cases('c04m', IMPORTS, cases, extra=EXTRA, shard=150)
     good = ok and not failing
     ck.oblige(f'correspondence: per-atom calc_implicit / check_implicit / calc_labels and per-molecule fix_structure, brutto, charge, radical, mass, '
@@ -538,7 +553,26 @@ def corr_molecules(ck):
 # ---------------------------------------------------------------------------------------------------------------
 # search: oracles on the real code that do not use the model
 
+class Capped:
+    """at most `limit` counterexamples per category (first component of the key), so that a systematic defect does not
+    write thousands of replay files"""
+
+    def __init__(self, ck, limit=8):
+        self.ck, self.limit, self.seen = ck, limit, collections.Counter()
+
+    def counterexample(self, key, *a, **kw):
+        cat = key.split(':')[0]
+        self.seen[cat] += 1
+        self.ck.count('counterexamples:' + cat)
+        if self.seen[cat] <= self.limit:
+            self.ck.counterexample(key, *a, **kw)
+
+    def __getattr__(self, name):
+        return getattr(self.ck, name)
+
+
 def search(ck):
+    ck = Capped(ck)
     from chython import smiles
     from chython.periodictable import H as HEl
     from rdkit import Chem, RDLogger
@@ -550,7 +584,8 @@ def search(ck):
     pool = corpus.sample(corpus.lipo(), 2000 if ck.tier == 'quick' else 4200, ck.seed, 'c04search')
     extra = ['CCO', 'C[N+](=O)[O-]', 'OP(O)(O)=O', 'OS(O)(=O)=O', 'CS(C)=O', 'C[S+](C)C', 'c1ccncc1', 'c1cc[nH]c1', '[NH4+]', '[OH-]', 'CC(=O)[O-]',
              'C#N', '[C-]#[O+]', 'FC(F)(F)S(=O)(=O)N', 'ClC(Cl)Cl', 'BrCCBr', 'CI', 'C[Si](C)(C)C', 'OB(O)c1ccccc1', 'C[Se]C', 'O=[N+]([O-])c1ccccc1',
-             'CP(C)C', 'C[P+](C)(C)C', 'c1ccsc1', 'c1ccoc1', 'C1CC1', '[2H]C([2H])([2H])O', '[13CH3]O', 'N#Cc1ccccc1', 'CN=[N+]=[N-]']
+             'CP(C)C', 'C[P+](C)(C)C', 'c1ccsc1', 'c1ccoc1', 'C1CC1', '[2H]C([2H])([2H])O', '[13CH3]O', 'N#Cc1ccccc1', 'CN=[N+]=[N-]',
+             '[H]C([H])([H])[H]', '[H]O[H]', '[H]N([H])C', '[H]c1ccccc1', 'C~[Fe]', 'N~[Cu]~N']
     n_ok = 0
     parsed = []
     for smi in extra + pool:
@@ -563,8 +598,8 @@ def search(ck):
         if rd is None:
             continue
         parsed.append((smi, m))
-        if m.check_valence():
-            ck.count('search:chython reports a valence error (skipped for RDKit)')
+        if any(a.implicit_hydrogens is None for _, a in m.atoms()):
+            ck.count('search:chython has no valence state for some atom (skipped for RDKit)')
             continue
         if rd.GetNumAtoms() != len(m) or any(a.atomic_number != ra.GetAtomicNum() for (_, a), ra in zip(m.atoms(), rd.GetAtoms())):
             ck.count('search:atom order differs (skipped)')
@@ -601,7 +636,7 @@ def search(ck):
     # totals re-derived from the atoms (fresh objects, so no cache can help)
     hm = exact_atomic_mass(HEl())
     for smi, m in parsed:
-        if m.check_valence():
+        if any(a.implicit_hydrogens is None for _, a in m.atoms()):
             continue
         ck.case(('rederive', smi))
         cnt = collections.Counter(a.atomic_symbol for _, a in m.atoms())
@@ -663,7 +698,7 @@ def search(ck):
     # additivity over union and invariance under renumbering
     for i in range(0, min(len(parsed) - 1, 300 if ck.tier == 'quick' else 3000), 2):
         (s1, m1), (s2, m2) = parsed[i], parsed[i + 1]
-        if m1.check_valence() or m2.check_valence():
+        if any(a.implicit_hydrogens is None for mm in (m1, m2) for _, a in mm.atoms()):
             continue
         ck.case(('union', s1, s2))
         u = m1.union(m2, remap=True)
@@ -700,10 +735,22 @@ def run(ck):
                         'element + perturbed copy, common valences, random centres of all elements, hand-made malformed ones, corpus molecules as read '
                         'and in Kekule form; every atom and every total compared. search: RDKit per atom, totals re-derived, perturbed molecules for '
                         'the valence-check clause, unions, renumberings')
+    import time
+    t = [time.time()]
+
+    def lap(name):
+        t.append(time.time())
+        ck.extra.setdefault('step_seconds', {})[name] = round(t[-1] - t[-2], 1)
+
     proved = common.standard_proof_steps(ck, translators=['elements'])
+    lap('proof')
     tied_a = corr_tables(ck)
+    lap('tables')
     tied_b = corr_exhaustive(ck)
+    lap('exhaustive')
     tied_c = corr_molecules(ck)
+    lap('molecules')
     search(ck)
+    lap('search')
     ck.extra['proved'] = proved
     ck.extra['tied'] = bool(tied_a and tied_b and tied_c)
